@@ -15,6 +15,7 @@ pub(crate) fn post_priority_for(typ: IceCandidateType, component: u16, r: u32) -
 fn c16_priority_for_contract() {
     let (t, _) = any_ctype();
     let c: u16 = kani::any();
+    kani::assume(c >= 1); // RFC 8445 5.1.2.1: component IDs are 1..=256 (the contract's precondition)
     let r = IceCandidate::priority_for(t, c);
     assert!(post_priority_for(t, c, r));
 }
@@ -38,10 +39,11 @@ fn c16_priority_for_tcp_spec() {
     let (t, tp) = any_ctype();
     let c: u16 = kani::any();
     let (tt, lp) = match kani::any::<u8>() % 3 { 0 => (TcpType::Passive, 65535u32), 1 => (TcpType::Active, 65534), _ => (TcpType::So, 65533) };
+    kani::assume(c >= 1);
     let r = IceCandidate::priority_for_tcp(t, c, tt);
     let comp = if c > 256 { 256u32 } else { c as u32 };
     assert!(r == (tp << 24) + (lp << 8) + (256 - comp) && r <= 0x7EFF_FFFF);
-    kani::assume(c >= 1 && c <= 256);
+    kani::assume(c <= 256);
     assert!(IceCandidate::priority_for_tcp(t, c, TcpType::Passive) > IceCandidate::priority_for_tcp(t, c, TcpType::Active));
     assert!(IceCandidate::priority_for_tcp(t, c, TcpType::Active) > IceCandidate::priority_for_tcp(t, c, TcpType::So));
     assert!(IceCandidate::priority_for(t, c) >= IceCandidate::priority_for_tcp(t, c, tt));
